@@ -9,6 +9,8 @@ import (
 	"go/constant"
 	"go/token"
 	"go/types"
+	"sort"
+	"strings"
 
 	"golang.org/x/tools/go/ssa"
 )
@@ -72,6 +74,7 @@ func runC20(c *Ctx, r *Report) {
 	r.Doc("R-C20.10", "the keystore's signature check succeeds only on the true result of the public-key verification of that call")
 	sigCheckDominates(c, r, "R-C20.10", p.FuncI("keystore", "Keystore", "Verify"))
 	hasKeyPolarity(c, r)
+	keystoreAddressing(c, r)
 	r.Doc("R-C20.9", "the keystore and the identity code examine every error result before going on: a failed datastore write, key decode or signature is never followed by a cached key or a returned identity")
 	errDiscipline(c, r, "R-C20.9", func(fn *Fn) bool { return inPkgs(c.P, fn, "keystore", "identityprovider") },
 		"a key or identity is handed out although creating, storing, decoding or signing it failed — another keystore over the same datastore then sees a different (or no) key for the id", deliberateDiscards)
@@ -957,4 +960,70 @@ func hasKeyPolarity(c *Ctx, r *Report) {
 		r.Check(ok, "R-C20.11", r.Key("R-C20.11", hk, "answer", ""), ret.Pos(), "the answer follows the finding", "HasKey: "+why+": a key that was created is reported absent, or an id that was never created is reported present")
 	})
 	r.Floor("R-C20.11", "answers of HasKey", nret, 2)
+}
+
+// keystoreAddressing: the cache is addressed by the id the datastore is addressed by (the id itself, or exactly the
+// datastore key's string), and every base64 conversion of key bytes uses one and the same alphabet.
+func keystoreAddressing(c *Ctx, r *Report) {
+	p := c.P
+	r.Doc("R-C20.12", "the key cache is addressed by the same id as the datastore: the id parameter itself or the datastore key's full string")
+	r.Doc("R-C20.13", "every base64 conversion of key bytes in the keystore uses one alphabet (what one method caches another decodes)")
+	ks := p.Named("keystore", "Keystore")
+	ncache := 0
+	encs := map[string]string{}
+	for i := 0; i < ks.NumMethods(); i++ {
+		fn := p.ByObj[ks.Method(i)]
+		if fn == nil {
+			continue
+		}
+		for _, f := range AllFnsUnder(fn) {
+			walkNoLit(f.Body, func(n ast.Node) bool {
+				switch x := n.(type) {
+				case *ast.CallExpr:
+					cf := p.Callee(f, x)
+					if cf != nil && cf.Pkg() != nil && strings.Contains(cf.Pkg().Path(), "golang-lru") && len(x.Args) >= 1 {
+						switch cf.Name() {
+						case "Peek", "Get", "Add", "Contains", "Remove", "ContainsOrAdd":
+							ncache++
+							okKey := false
+							switch k := ast.Unparen(x.Args[0]).(type) {
+							case *ast.Ident:
+								if v, isVar := p.ObjOf(f, k).(*types.Var); isVar && paramOf(p, f.Root(), v) {
+									okKey = true
+								}
+							case *ast.CallExpr:
+								// datastore.NewKey(id).String()
+								if se, ok := ast.Unparen(k.Fun).(*ast.SelectorExpr); ok && se.Sel.Name == "String" {
+									if inner, ok := ast.Unparen(se.X).(*ast.CallExpr); ok {
+										if icf := p.Callee(f, inner); icf != nil && icf.Name() == "NewKey" {
+											okKey = true
+										}
+									}
+								}
+							}
+							r.Check(okKey, "R-C20.12", r.Key("R-C20.12", f, "cache-key", cf.Name()), x.Pos(), "the cache is addressed by the id",
+								"the key cache is addressed by "+types.ExprString(x.Args[0])+", which is neither the id parameter nor the datastore key's full string: two ids that differ for the datastore can share a cache slot, so one id is answered with another id's key")
+						}
+					}
+				case *ast.SelectorExpr:
+					// base64.<Encoding>
+					if id, ok := ast.Unparen(x.X).(*ast.Ident); ok {
+						if pn, ok := p.ObjOf(f, id).(*types.PkgName); ok && pn.Imported().Path() == "encoding/base64" && strings.HasSuffix(x.Sel.Name, "Encoding") {
+							encs[x.Sel.Name] = p.Pos(x.Pos())
+						}
+					}
+				}
+				return true
+			})
+		}
+	}
+	r.Floor("R-C20.12", "cache accesses in the keystore", ncache, 3)
+	var names []string
+	for n := range encs {
+		names = append(names, n+" at "+encs[n])
+	}
+	sort.Strings(names)
+	r.Check(len(encs) <= 1, "R-C20.13", r.Key("R-C20.13", nil, "one-alphabet", ""), token.NoPos, "one base64 alphabet throughout the keystore",
+		"the keystore mixes base64 alphabets ("+strings.Join(names, "; ")+"): what one method puts in the cache another cannot decode — a key that is present is then reported unreadable and re-created, so the id gets a different identity")
+	r.Floor("R-C20.13", "base64 alphabets referenced in the keystore", len(encs), 1)
 }
